@@ -272,6 +272,6 @@ func init() {
 			g.emit(runMachine(mode, c, init, steps), "transc/"+mode)
 		}
 	}
-	drivers["machine"] = func(g *G) { gen(g, "ctx", g.pick(12000, 300000)); transc(g, "ctx", g.pick(1500, 40000)) }
-	drivers["errdec"] = func(g *G) { gen(g, "ed", g.pick(12000, 300000)); transc(g, "ed", g.pick(1500, 40000)) }
+	drivers["machine"] = func(g *G) { gen(g, "ctx", g.pick(12000, 120000)); transc(g, "ctx", g.pick(1500, 40000)) }
+	drivers["errdec"] = func(g *G) { gen(g, "ed", g.pick(12000, 120000)); transc(g, "ed", g.pick(1500, 40000)) }
 }
